@@ -25,6 +25,17 @@ JExp(exp, dom, got, class, msg) ==
   IF exp = TIE THEN << <<"tie", class, msg>> >>
   ELSE IF exp \notin dom THEN <<>>
   ELSE J(TRUE, got = exp, class, msg \o " got " \o S(got) \o " want " \o S(exp))
+\* a probability's nearest score: beyond the representable scores the conversion saturates (the last finite
+\* score or the sentinel next to it above, the last finite score below) and never wraps around
+MaxOf(D0) == CHOOSE x \in D0 : \A y \in D0 : y <= x
+MinOf(D0) == CHOOSE x \in D0 : \A y \in D0 : y >= x
+JSat(exp, dom, got, class, msg) ==
+  IF exp = TIE THEN << <<"tie", class, msg>> >>
+  ELSE IF exp \in dom THEN J(TRUE, got = exp, class, msg \o " got " \o S(got) \o " want " \o S(exp))
+  ELSE IF exp > MaxOf(dom)
+  THEN J(TRUE, got \in {MaxOf(dom), MaxOf(dom) + 1}, class \o " (beyond the largest score)",
+         msg \o " got " \o S(got) \o " want " \o S(MaxOf(dom)) \o " or " \o S(MaxOf(dom) + 1))
+  ELSE J(TRUE, got = MinOf(dom), class \o " (beyond the smallest score)", msg \o " got " \o S(got) \o " want " \o S(MinOf(dom)))
 PairOf(pe) == <<pe.m, pe.e>>
 IsNum(pe) == pe.k = "num"
 PStr(pe) == IF IsNum(pe) THEN S(pe.m) \o "e" \o S(pe.e - 4) ELSE pe.k
@@ -104,8 +115,8 @@ ByteItems(e) == LET b == e.b IN
 ProbItems(e) == LET p == <<e.m, e.e>>
                     name == (IF e.comp THEN "1-" ELSE "") \o PairStr(p) IN
   IF e.op = "ephred"
-  THEN JExp(PhredOfProb(p), PhredFinite, e.r, "Ephred", "p=" \o name)
-  ELSE JExp(IF e.comp THEN SolexaOfComp(p) ELSE SolexaOfProb(p), SolexaFinite, e.r, "Esolexa", "p=" \o name)
+  THEN JSat(PhredOfProb(p), PhredFinite, e.r, "Ephred", "p=" \o name)
+  ELSE JSat(IF e.comp THEN SolexaOfComp(p) ELSE SolexaOfProb(p), SolexaFinite, e.r, "Esolexa", "p=" \o name)
 
 SeqItems(e) == LET st == IF e.t = "solexa" THEN "solexa" ELSE "phred"
                    fin == IF st = "solexa" THEN SolexaFinite ELSE PhredFinite
@@ -123,7 +134,7 @@ SeqItems(e) == LET st == IF e.t = "solexa" THEN "solexa" ELSE "phred"
                            ctx \o " set " \o S(e.v) \o " then " \o S(e.after))
     [] e.call = "sete" ->
          LET exp == IF st = "phred" THEN PhredOfProb(p) ELSE IF e.comp THEN SolexaOfComp(p) ELSE SolexaOfProb(p) IN
-         JExp(exp, fin, e.r, who, ctx \o " p=" \o (IF e.comp THEN "1-" ELSE "") \o PairStr(p))
+         JSat(exp, fin, e.r, who, ctx \o " p=" \o (IF e.comp THEN "1-" ELSE "") \o PairStr(p))
          \o J(exp # TIE /\ exp \in fin /\ e.r = exp, e.after = [e.scores EXCEPT ![k] = exp], who \o " (other positions)", ctx)
     [] e.call = "enc" ->
          J(Native(enc) = st /\ Printable(enc, sc), e.d = sc, who \o " round trip",
